@@ -6,7 +6,7 @@ import hexlib
 from common import hx
 
 ID = "C01"
-LEAN_IMPORTS = ["PyTrie.Props.C01", "PyTrie.Props.C01World", "PyTrie.Props.RawLevel", "PyTrie.Props.NonVacuity", "PyTrie.Props.NonVacuity2"]
+LEAN_IMPORTS = ["PyTrie.Props.C01", "PyTrie.Props.C01World", "PyTrie.Props.RawLevel", "PyTrie.Props.NonVacuity", "PyTrie.Props.NonVacuity2", "PyTrie.Props.FreeExec"]
 THEOREMS = [
     "PyTrie.Props.C01.get_set",
     "PyTrie.Props.C01.get_delete",
@@ -35,6 +35,9 @@ THEOREMS = [
     "PyTrie.Props.NonVacuity2.raw_history_get",
     "PyTrie.Props.NonVacuity2.rawRun_hist",
     "PyTrie.Props.Raw.pruned_db_get",
+    "PyTrie.Props.Free.op_is_executor_op",
+    "PyTrie.Props.Free.run_is_executor_run",
+    "PyTrie.Props.Free.run_get",
 ]
 RULE = ("histories of set/setitem/set-to-empty/delete/delitem and squash_changes batches (committed and aborted) "
         "over crafted and random prefix-sharing key universes (empty key, prefixes, extensions, mid-path "
